@@ -53,8 +53,12 @@ def generate(prop, seed, tier):
         G.constant_factors(spec, g)
     if g.random() < 0.25:
         G.add_neq_terminal(spec, g, 'small')
+    if g.random() < 0.15:
+        G.add_onehot_terminals(spec, g)
     if g.random() < 0.1:
         spec = G.ring_chord_spec(g, 'small')
+        if g.random() < 0.4:
+            G.add_onehot_terminals(spec, g)
     tight = False
     if g.random() < 0.08:
         # several independent recursive components; the iteration budget is generous for each (reference step count + 10)
